@@ -175,8 +175,8 @@ class Engine:
             self.ch = Chooser(prefix)
             self._run_one()
             seen += 1
-            if seen > 4000:
-                raise OutOfReach(f"{self.c.key}: more than 4000 paths")
+            if seen > getattr(self.c, "max_paths", 4000):
+                raise OutOfReach(f"{self.c.key}: more than {getattr(self.c, 'max_paths', 4000)} paths")
             prefix = next_prefix(self.ch.trace)
         self.paths = seen
         # vacuity: at least one normal or exceptional exit must be reachable
@@ -192,10 +192,14 @@ class Engine:
         name = f"{self.prop}/{self.c.key}/{kind}/{self._label()}"
         base = name
         k = 1
-        names = {v.name for v in self.vcs}
+        names = self.__dict__.setdefault("_vc_names", set())
+        if len(names) != len(self.vcs):
+            names.clear()
+            names.update(v.name for v in self.vcs)
         while name in names:
             k += 1
             name = f"{base}~{k}"
+        names.add(name)
         self.vcs.append(VC(name, kind, list(self.st.pc) + list(extra_hyps), goal, expect, self.c.key, clause,
                            self._label(), dict(self.inputs)))
 
@@ -307,13 +311,22 @@ class Engine:
         c = self.c
         st = self.st
         self.path_label.append("ret")
-        self.emit("canary", z3.BoolVal(False), clause="normal exit reachable", expect="sat")
+        ncan = self.__dict__.get("_n_canary", 0)
+        if not getattr(c, "batch_post", False) or ncan < 8:
+            self._n_canary = ncan + 1
+            self.emit("canary", z3.BoolVal(False), clause="normal exit reachable", expect="sat")
         # parameter names in postconditions denote the values at entry (the body may re-bind them)
         env = {k: v for k, v in self.entry.env.items()}
         env["result"] = ret
-        for e in c.all_ensures(self.reg):
-            g = self.clause_bool(e, st, self.entry, env)
-            self.emit("post", g, clause=e)
+        if getattr(c, "batch_post", False):
+            # one obligation per path: the conjunction of all postconditions (instances with very many paths)
+            ens_ = c.all_ensures(self.reg)
+            gs_ = [self.clause_bool(e, st, self.entry, env) for e in ens_]
+            self.emit("post", z3.And(gs_) if gs_ else z3.BoolVal(True), clause="all of: " + " ;; ".join(ens_))
+        else:
+            for e in c.all_ensures(self.reg):
+                g = self.clause_bool(e, st, self.entry, env)
+                self.emit("post", g, clause=e)
         # raises-iff completeness: returned normally => no declared raise condition held at entry
         for exc, cond in c.raises.items():
             g = z3.Not(self.clause_bool(cond, self.entry_view(), self.entry, {}))
@@ -1199,7 +1212,10 @@ class Engine:
             genv["_done"] = mk_bytes(done)
         for k in spec.get("ghost_init", {}):
             facts = []
-            genv[k] = self._havoc_value(genv0[k], k)
+            if k in spec.get("ghost_step", {}) or k not in spec.get("ghost_const", ()):
+                genv[k] = self._havoc_value(genv0[k], k)
+            else:
+                genv[k] = genv0[k]          # a snapshot taken where the loop is entered: the same value in every iteration
         for inv in spec["inv"]:
             st.pc.append(self.clause_bool(inv, st, self.entry, genv))
         # the invariant holds for every value of a universally quantified ghost parameter: further instances may be named
@@ -1212,6 +1228,13 @@ class Engine:
                         st.pc.append(self.clause_bool(inv, st, self.entry, inst))
         if self.branch(gi < n, lab + "c"):
             elem = it["elem"](gi)
+            if spec.get("elem_sort") and it["kind"] == "opaque":
+                # elements of an unmodelled iterable, given the declared class (its fields are unknown values of their sorts)
+                facts_e: List[Any] = []
+                elem = fresh_of_sort(parse_sort(spec["elem_sort"]), fresh_name("elem"), facts_e)
+                st.pc.extend(facts_e)
+                if elem.k == "obj":
+                    st.objcls[elem.t] = elem.cls
             if it["kind"] in ("bytes", "seq"):
                 st.pc.append(z3.And(0 <= elem.t, elem.t <= 255))
             self.assign(s.target, elem)
@@ -1246,6 +1269,8 @@ class Engine:
             for k in spec.get("ghost_init", {}):
                 if k not in genv2:
                     genv2[k] = genv[k]
+            for k in spec.get("ghost_pre", {}):
+                genv2[k] = genv[k]          # snapshots of the iteration's start stay readable in iter_post
             self._loop_preserve(spec, lab, genv2)
             raise PathAbort()
         else:
